@@ -136,6 +136,7 @@ func H_C19_Add_int32() { c19Bin("SafeAdd[int32]", SafeAdd[int32], verifrt.ExactA
 func H_C19_Sub_int32() { c19Bin("SafeSub[int32]", SafeSub[int32], verifrt.ExactSub[int32]) }
 
 // not registered: the generic SafeMul equivalence does not close at this width on any back end (DESIGN.md C19)
+//
 //verif:h prop=C19probe cover=ok,error p.splitbits=8 p.width=32 solverms=20000 portfolio=600
 func H_C19_Mul_int32() { c19Bin("SafeMul[int32]", SafeMul[int32], verifrt.ExactMul[int32]) }
 
@@ -152,6 +153,7 @@ func H_C19_Add_uint32() { c19Bin("SafeAdd[uint32]", SafeAdd[uint32], verifrt.Exa
 func H_C19_Sub_uint32() { c19Bin("SafeSub[uint32]", SafeSub[uint32], verifrt.ExactSub[uint32]) }
 
 // not registered: the generic SafeMul equivalence does not close at this width on any back end (DESIGN.md C19)
+//
 //verif:h prop=C19probe cover=ok,error p.splitbits=8 p.width=32 solverms=20000 portfolio=600
 func H_C19_Mul_uint32() { c19Bin("SafeMul[uint32]", SafeMul[uint32], verifrt.ExactMul[uint32]) }
 
@@ -168,6 +170,7 @@ func H_C19_Add_int64() { c19Bin("SafeAdd[int64]", SafeAdd[int64], verifrt.ExactA
 func H_C19_Sub_int64() { c19Bin("SafeSub[int64]", SafeSub[int64], verifrt.ExactSub[int64]) }
 
 // not registered: the generic SafeMul equivalence does not close at this width on any back end (DESIGN.md C19)
+//
 //verif:h prop=C19probe cover=ok,error p.splitbits=8 p.width=64 solverms=20000 portfolio=600
 func H_C19_Mul_int64() { c19Bin("SafeMul[int64]", SafeMul[int64], verifrt.ExactMul[int64]) }
 
@@ -184,6 +187,7 @@ func H_C19_Add_uint64() { c19Bin("SafeAdd[uint64]", SafeAdd[uint64], verifrt.Exa
 func H_C19_Sub_uint64() { c19Bin("SafeSub[uint64]", SafeSub[uint64], verifrt.ExactSub[uint64]) }
 
 // not registered: the generic SafeMul equivalence does not close at this width on any back end (DESIGN.md C19)
+//
 //verif:h prop=C19probe cover=ok,error p.splitbits=8 p.width=64 solverms=20000 portfolio=600
 func H_C19_Mul_uint64() { c19Bin("SafeMul[uint64]", SafeMul[uint64], verifrt.ExactMul[uint64]) }
 
@@ -198,6 +202,7 @@ func H_C19_MulUint64() { c19Bin("SafeMulUint64", SafeMulUint64, verifrt.ExactMul
 
 // not registered: sign bookkeeping + 128-bit product against the signed 128-bit product does not close
 // (unknown after 10 s incremental + 120 s portfolio on every back end); listed as outside the claim.
+//
 //verif:h prop=C19probe cover=ok,error portfolio=120/600
 func H_C19_MulInt64() { c19Bin("SafeMulInt64", SafeMulInt64, verifrt.ExactMul[int64]) }
 
